@@ -421,6 +421,15 @@ def r6(ctx):
     ctx.check("C03.R6", by_age and oldest_first, key(f, "oldest-first"), site(f, pops[0]),
               "with the list sorted %s by age, pop(%s) retires the NEWEST worker first: after a reload the freshly started workers would be killed and the old generation kept" % (
                   "descending" if desc else "ascending", "" if idx == -1 else idx), "oldest first")
+    # every surplus worker is signalled on every pass: the retire loop's kill is unconditional (a TERM that arrives before
+    # the worker installed its handlers is lost; the next pass repeats it)
+    head = [n for n in g.nodes_of(loop) if n.kind == "join"][0]
+    kn = [n for c in kills for n in nodes_with(f, c)]
+    body = [(t, "true") for t in g.tests() if t.stmt is loop]
+    r = g.reachable(body, without_nodes=kn, follow_exc=False, stop=lambda n: n is head)
+    ctx.check("C03.R6", head not in r, key(f, "retire-every-pass"), site(f, kills[0]),
+              "an iteration of the retire loop can skip kill_worker (per-worker 'already told' state): a SIGTERM lost during the worker's boot is never repeated and the stale worker stays in the pool",
+              "kill_worker on every iteration")
     # kill while len > num_workers, with SIGTERM
     c = compare(loop.test)
     okc = c is not None and "num_workers" in norm(loop.test) and ((c[1] is ast.Gt and tail(c[2]) == "num_workers") or (c[1] is ast.Lt and tail(c[0]) == "num_workers"))
